@@ -509,15 +509,21 @@ def concretize(s, cap=64):
     if z3.is_int_value(e):
         return e.as_long()
     for _ in range(cap):
-        m = ctx.get_model()
-        if m is None:
-            raise Abort("concretize: no model")
-        v = m.eval(e, model_completion=True)
-        v = z3.simplify(v)
-        if not z3.is_int_value(v):
-            raise Abort("concretize: non-integer model value")
-        v = v.as_long()
-        if ctx.branch(e == v):
+        n = len(ctx.trace)
+        if n < len(ctx.prefix) and len(ctx.prefix[n]) > 2:
+            # replaying a recorded decision: the value it was taken on is part of the record (the model of a
+            # re-execution may differ from the original run's, the explored condition must not)
+            v = ctx.prefix[n][2]
+        else:
+            m = ctx.get_model()
+            if m is None:
+                raise Abort("concretize: no model")
+            v = m.eval(e, model_completion=True)
+            v = z3.simplify(v)
+            if not z3.is_int_value(v):
+                raise Abort("concretize: non-integer model value")
+            v = v.as_long()
+        if ctx.branch(e == v, payload=v):
             return v
     raise Abort("concretize: domain larger than %d" % cap)
 
@@ -761,7 +767,7 @@ class Ctx:
             return self.model
         return None
 
-    def branch(self, cond):
+    def branch(self, cond, payload=None):
         if self.mode == "conc":
             raise RuntimeError("symbolic branch in concrete mode")
         cond = z3.simplify(cond)
@@ -773,8 +779,8 @@ class Ctx:
         if n >= self.max_depth:
             raise Abort("decision depth cap")
         if n < len(self.prefix):
-            d, pend = self.prefix[n]
-            self.trace.append([d, pend])
+            d, pend = self.prefix[n][0], self.prefix[n][1]
+            self.trace.append(list(self.prefix[n]))
             self.add_pc(cond if d else z3.Not(cond))
             return d
         # model-guided: the side the current model takes is feasible
@@ -795,7 +801,7 @@ class Ctx:
             if r == "unknown":
                 self.unknown_branches += 1
             pend = r != "unsat"
-            self.trace.append([d0, pend])
+            self.trace.append([d0, pend] if payload is None else [d0, pend, payload])
             keep = self.model
             self.add_pc(cond if d0 else z3.Not(cond))
             self.model, self.model_valid = keep, True
@@ -816,6 +822,8 @@ class Ctx:
             self.trace.append([False, False])
         else:
             raise Infeasible()
+        if payload is not None:
+            self.trace[-1].append(payload)
         self.add_pc(cond if d else z3.Not(cond))
         mm = mt if d else mf
         if mm is not None:
